@@ -84,6 +84,14 @@ class FaultyConverter:
         return self._call(s, self.inner.latex_to_text)
 
 
+class CallableFaultyConverter(FaultyConverter):
+    """A converter object that also happens to be callable (a Mock is; so is any class with __call__).
+    Only its unicode_to_latex / latex_to_text methods are the converter interface."""
+
+    def __call__(self, *a, **kw):
+        return {"called": "the converter object itself, not its method"}
+
+
 def generate(rng, tier, prop):
     kn = docgen.draw_knobs(rng, tier, "utf-8")
     kn.update({"nblocks": rng.choice([1, 2, 3, 5, 8]) if rng.random() > (0.02 if tier == "quick" else 0.08) else rng.choice([40, 150]), "names": True, "collide": rng.random() < 0.15,
@@ -95,7 +103,7 @@ def generate(rng, tier, prop):
     extra = []
     for _ in range(rng.randint(0, 3)):
         extra.append({"entry": rng.randrange(8), "key": rng.choice(["author", "editor", "x", "year", "keywords"]),
-                      "kind": rng.choice(["nameparts", "nameparts", "nameparts_list", "str_list", "int", "none", "dup_field", "dup_field"])})
+                      "kind": rng.choice(["nameparts", "nameparts", "nameparts_list", "str_list", "int", "none", "dup_field", "dup_field", "plain_str", "plain_str"])})
     ops = [{"op": "library", "extra_fields": extra}]
     if mode == "options":
         if direction == "encode":
@@ -106,7 +114,7 @@ def generate(rng, tier, prop):
         ops.append({"op": "transform", "fault_calls": [], "exc": None})
     else:
         ops.append({"op": "build", "direction": direction, "inner": rng.choice(["marker", "marker", "real"]), "options": {},
-                    "inplace": rng.random() < 0.5})
+                    "inplace": rng.random() < 0.5, "callable": rng.random() < 0.3})
         # the same long-lived instance is used for several libraries (the first is re-built from the same text, so the
         # same values come back): what an earlier call left behind in the instance must not show in a later one
         for t in range(rng.choice([1, 1, 2, 3])):
@@ -209,6 +217,8 @@ def execute(run, props):
                     v = ["one", "two"]
                 elif x["kind"] == "int":
                     v = 1999
+                elif x["kind"] == "plain_str":
+                    v = "set in code, no start line"
                 elif x["kind"] == "dup_field":
                     # an entry taken out of a duplicate-field block: the same field key twice
                     strs = [f for f in e.fields if isinstance(f.value, str)]
@@ -259,7 +269,7 @@ def execute(run, props):
                     else:
                         from pylatexenc.latex2text import LatexNodes2Text
                         inner = LatexNodes2Text()
-                    conv = FaultyConverter(inner, [], None)
+                    conv = (CallableFaultyConverter if op.get("callable") else FaultyConverter)(inner, [], None)
                     if direction == "encode":
                         mw = mws.LatexEncodingMiddleware(encoder=conv, allow_inplace_modification=op["inplace"])
                     else:
